@@ -1340,7 +1340,7 @@ def check_C20(tier, seed):
     if tier == "quick":
         rt = [s for s in scns if s["mode"] == "roundtrip"]
         mu = [s for s in scns if s["mode"] == "mutate"]
-        scns = rt + mu[::max(1, len(mu) // 6000)]
+        scns = rt + mu[::max(1, len(mu) // 6000)] + [s for s in scns if s["mode"] == "pad"]
     for i, s in enumerate(scns):
         s["id"] = i + 1
     tools = lib.build_tools("asan")
@@ -1421,7 +1421,7 @@ def check_C20(tier, seed):
     res.notes["round_trips"] = len([s for s in scns if s["mode"] == "roundtrip"])
     res.notes["mutants"] = len([s for s in scns if s["mode"] == "mutate"])
     return finish(res, tier, seed, "model_checking", t0,
-                  "TLV forests enumerated by TLC (depth <= 3, up to 2 children / 2 top-level nodes, all four tag classes, tag numbers 0 2 4 16 17 30 31 127 128 300 16383 16384, contents of 0 / 1 / 2 / 127 / 128 octets, minimal / padded long-form / indefinite lengths): unber -p on Ser(forest) must print exactly Fields(forest) and enber must reproduce the octets; truncations and byte substitutions of every forest's octets (quick: a sample of 6000): unber must end by exit, with a diagnostic when it fails; both tools are built with ASan+UBSan from the working tree",
+                  "TLV forests enumerated by TLC (depth <= 3, up to 2 children / 2 top-level nodes, all four tag classes, tag numbers 0 2 4 16 17 30 31 127 128 300 16383 16384 and, in every class, the numbers at which the identifier grows by an octet up to 2^30 - 1, contents of 0 / 1 / 2 / 127 / 128 octets, minimal / padded long-form / indefinite lengths): unber -p on Ser(forest) must print exactly Fields(forest) and enber must reproduce the octets; truncations and byte substitutions of every forest's octets (quick: a sample of 6000): unber must end by exit, with a diagnostic when it fails; the same for closed-form inputs whose tag or length field is padded to 2..127 octets, at top level and inside definite / indefinite parents with little or much of the parent left; both tools are built with ASan+UBSan from the working tree",
                   ["MC_Tlv.tla (X.690 8.1 identifier / length octets) is the reference", "TLC, Json module, python glue (parsing of the unber -p text)"])
 
 
